@@ -30,6 +30,8 @@ type caseC07 struct {
 	Transfer kit.Transfer `json:"transfer"`
 	// Callback: "recv" | "ack-success" | "ack-error" | "timeout"
 	Callback string `json:"callback"`
+	// Spelling lists the JSON spelling variants applied to raw packet data (informational).
+	Spelling []string `json:"spelling,omitempty"`
 }
 
 func genForeignReceiver(t *rapid.T) string {
@@ -62,7 +64,24 @@ func genC07(t *rapid.T, w *world.World) caseC07 {
 	c := caseC07{Callback: pick(t, "callback", []string{"recv", "recv", "recv", "recv", "ack-success", "ack-error", "timeout"})}
 	tr := genBroadTransfer(t, w)
 	tr.Receiver = genForeignReceiver(t)
-	switch pick(t, "data", []string{"orbiter-memo", "orbiter-memo", "no-memo", "other-memo", "sender-source", "bad-amount", "bad-denom", "bytes", "json"}) {
+	switch pick(t, "data", []string{"orbiter-memo", "orbiter-memo", "no-memo", "other-memo", "sender-source", "bad-amount", "bad-denom", "bytes", "json", "spelling", "spelling", "spelling"}) {
+	case "spelling":
+		// the five members written as text with spelling variants on which JSON decoders disagree;
+		// whether such a packet is addressed to the orbiter account is what the ICS-20 codec reads
+		// (runC07 asks it), so the orbiter account appears here as a value on purpose
+		f := kit.PacketFields{Denom: world.ReturnDenom(tr.Channel, tr.Denom), Amount: tr.Amount, Sender: world.ForeignSender, Receiver: tr.Receiver}
+		alt := world.OrbiterAddr.String()
+		if kit.Chance(t, "spelling/orbiter-first", 40) {
+			f.Receiver, alt = alt, f.Receiver
+		}
+		if kit.Chance(t, "spelling/memo", 70) {
+			if m, err := kit.BuildMemo(w.Cdc, tr, false); err == nil {
+				f.Memo = m
+			}
+		}
+		text, applied := kit.SpellPacketData(t, "spelling", f, alt)
+		tr.RawData = []byte(text)
+		c.Spelling = applied
 	case "orbiter-memo":
 		// a complete valid orbiter payload in a packet for someone else
 	case "no-memo":
@@ -127,6 +146,25 @@ func runC07(w *world.World, c caseC07, rec *kit.Recorder) error {
 	t := c.Transfer
 	if t.RawData == nil && orbiterAddressed(t.ReceiverString()) {
 		return fmt.Errorf("harness: case is addressed to the orbiter account (outside the property's domain)")
+	}
+	if t.RawData != nil {
+		// raw packet data: the receiver is whatever the ICS-20 application's own codec reads
+		var ref transfertypes.FungibleTokenPacketData
+		if err := transfertypes.ModuleCdc.UnmarshalJSON(t.RawData, &ref); err == nil && orbiterAddressed(ref.Receiver) {
+			rec.Label("raw", "read by ICS-20 as addressed to the orbiter account (outside the domain)")
+			return nil
+		} else if err != nil {
+			rec.Label("raw", "not ICS-20 data for the application")
+		} else {
+			rec.Label("raw", "ICS-20 data for another receiver")
+		}
+		if len(c.Spelling) > 0 {
+			rec.NonTrivial(fmt.Sprintf("%s|%x", c.Callback, t.RawData))
+			if bytes.Contains(t.RawData, []byte(world.OrbiterAddr.String())) {
+				rec.Label("raw", "spelling variant mentioning the orbiter account, in the domain")
+				rec.Sample("spelling-with-orbiter-account", c)
+			}
+		}
 	}
 	m := kit.NewMachine(w)
 	for _, s := range c.Prefix {
@@ -195,6 +233,12 @@ func runC07(w *world.World, c caseC07, rec *kit.Recorder) error {
 	ctxB2, _ := m.Ctx.CacheContext()
 	b2 := run(ctxB2.WithEventManager(sdk.NewEventManager()), w.Ref)
 	refEventsStable := b.events == b2.events
+	if !bytes.Equal(b.ack, b2.ack) || b.err != b2.err || b.panic != b2.panic {
+		// the wrapped application's own answer is not a function of the packet: no reference
+		rec.Label("c07", "reference result not deterministic (case excluded)")
+		rec.Exclude("case skipped: the wrapped ICS-20 application's own acknowledgement or error differs between two runs")
+		return nil
+	}
 	if !refEventsStable {
 		rec.Label("c07", "reference events not deterministic (excluded from the event comparison)")
 		rec.Exclude("event comparison skipped: the wrapped ICS-20 application's own events differ between two runs")
